@@ -112,10 +112,44 @@
   list satisfies `WAcc [svg]`; the reader / writer pass the definitions go through in the code (`defsBlock` takes
   them verbatim; the stream `auto_style_text` compares with the binary).
 -/
+/-
+  C02, extension 3 (Svgdx/Proofs/ThemeCompose.lean): the composition - the document text WITH the auto-style block
+  behind the root start tag is accepted by the recogniser `Xml.Spec.wfContent`, end to end.
+
+  The model's `Doc.postprocess` is `Transformer::postprocess` with auto-styles OFF (it has no switch), and the code
+  writes the parts by separate `write_to` calls. The statements are about the composed text
+      write pre ++ renderEv (.start root) ++ autoStyles debug tcfg classes elements ++ write post
+  where `pre ++ .start root :: post` is the event list `postprocess` returns; `write_split` shows that WITHOUT the
+  injected text this is exactly `write fin`, the text `transform_written_wellformed_strict_and_fixed` speaks about.
+   * `acc_events_rest`: the stack-indexed acceptance lemma `XmlSpec.acc_events` with a rest behind the events;
+   * `wacc_write`: `write evs` of an event list with XML Names and unique attributes that closes the open elements
+     `stk` (`check stk evs = some []`) satisfies `WAcc stk` - the hypothesis `inject_after_root_wf` was left with,
+     obtained directly from `acc_events` (no inversion of the recogniser, no fuel monotonicity);
+   * `coalesce_split`, `write_split`: the writer does not look across a markup event;
+   * `autoStyles_injectable`: `autoStyles …` of every theme / author string / class list / element list can stand in
+     front of accepted content, below any open elements (`Injectable`);
+   * `inject_wellformed`: `pre ++ .start root :: post` balanced, XML Names, unique attribute names, `inj` injectable
+     ==> `wfContent (write pre ++ (renderEv (.start root) ++ (inj ++ write post)))` - at ANY start event;
+   * `postprocess_with_autostyles`: hypotheses `Balanced evs`, `NamesOk evs`, `AttrsUnique evs`,
+     `Doc.postprocess cfg evs bb = some fin`, `Doc.partitionSvg evs = (pre, some (root, emp), remain)`; conclusion:
+     `fin = pre ++ newRoot root a :: post` with `post` = `closeEvs emp ++ remain` or `remain ++ closeEvs emp`,
+     `write fin` = the composed text without injection, and the composed text with `autoStyles debug tcfg classes
+     elements` is accepted, for all `debug tcfg classes elements`;
+   * `transformDoc_written_with_autostyles`: the same from the hypotheses of
+     `transform_written_wellformed_strict_and_fixed` on the INPUT (`st.originals = []`, `NoDefaults st`,
+     `NodesT InputElemOk ks`, `transformDoc … = (false, st', .ok (evs, bb))`, `finalEvents cfg false evs bb = some fin`)
+     plus the root having been found (`partitionSvg`).
+  Stated for ALL class / element lists, hence for the ones `write_auto_styles` collects (root classes and the
+  classes / names of the remaining events). Not covered: the two debug comments (`Generated by`, `Config`) the
+  code writes between the root and the block with `--debug` (not in `Doc.postprocess`); the strict (`Char`) form -
+  the injected text consists of XML `Char`s when the author strings do (`styleCData_isChar`), the definitions are
+  ASCII, but `wfContentStrict` of the composed text is not stated; the reader / writer pass of the definitions.
+-/
 import Svgdx.Proofs.RefCheck
 import Svgdx.Proofs.ThemeWf
 import Svgdx.Proofs.ThemeDefsWf
 import Svgdx.Proofs.ThemeDefsBlock
+import Svgdx.Proofs.ThemeCompose
 
 #print axioms Svgdx.Props.C02Ref.check_sound
 #print axioms Svgdx.Props.C02Ref.check_every_amp
@@ -211,3 +245,12 @@ import Svgdx.Proofs.ThemeDefsBlock
 #print axioms Svgdx.Theme.autoStyles_wellformed
 #print axioms Svgdx.Theme.inject_after_root
 #print axioms Svgdx.Theme.inject_after_root_wf
+#print axioms Svgdx.Theme.acc_events_rest
+#print axioms Svgdx.Theme.wacc_write
+#print axioms Svgdx.Theme.coalesce_split
+#print axioms Svgdx.Theme.write_split
+#print axioms Svgdx.Theme.autoStyles_injectable
+#print axioms Svgdx.Theme.check_stack_names
+#print axioms Svgdx.Theme.inject_wellformed
+#print axioms Svgdx.Theme.postprocess_with_autostyles
+#print axioms Svgdx.Xml.transformDoc_written_with_autostyles
